@@ -14,7 +14,7 @@ from vmon.libutil import load_definition, monitored
 
 LEVEL = "exploration"
 SHARDS = {"quick": 16, "thorough": 16}
-MUST = ["abstract.capitalised_spelling", "trees.grouping_layer", "nested.embeds-root", "nested.twice", "nested.diamond", "nested.shared", "root_override.generator_runs", "root_override.single_parses", "root_override.default_root_afterwards", "outcome.ok", "outcome.unrecognized", "unrec.abstract-dead-end", "unrec.ambiguous", "end.concrete-dead-end",
+MUST = ["abstract.capitalised_spelling", "nested.nests-own-base", "trees.grouping_layer", "nested.embeds-root", "nested.twice", "nested.diamond", "nested.shared", "root_override.generator_runs", "root_override.single_parses", "root_override.default_root_afterwards", "outcome.ok", "outcome.unrecognized", "unrec.abstract-dead-end", "unrec.ambiguous", "end.concrete-dead-end",
         "end.leaf", "depth.>=2", "nested.expanded", "apid-name.other", "generator.error_objects", "trees.enumerated", "reparse.same_raw_object"]
 RULE = ("document = container tree; packet = header + steering fields + one byte per container on the path; the library's "
         "outcome (item names in order, values, header/user_data views, unrecognized+partial data, or normal end) must "
@@ -100,6 +100,9 @@ def tree_doc(parents, crits, abstracts, root_abstract, apid_name="PKT_APID", nes
                        "diamond": [("c", "NestedA"), ("c", "NestedB"), ("p", f"X{i}")]}.get(nested, [("c", "NestedK"), ("p", f"X{i}")])
         elif nested == "shared" and i == 1:
             entries = [("p", f"X{i}"), ("c", "NestedK")]      # a second path container referencing the same nested container
+        elif nested == "nests-own-base" and i >= 1 and par >= 0:
+            # a container that extends K{par} and also embeds another K{par} (a "pair" record): the embedded one is expanded in place
+            entries = [("p", f"X{i}"), ("c", f"K{par}")]
         conts.append(ir.Container(f"K{i}", tuple(entries), "CCSDSPacket" if par < 0 else f"K{par}", subst(POOL[ci], apid_name), ab))
     conts.append(ir.Container("CCSDSPacket", tuple(root_entries), None, None, root_abstract))
     return ir.Doc(tuple(ts), tuple(ps), tuple(conts))
@@ -112,9 +115,11 @@ def packet_for(doc, s1, s2, apid, out_len_hint=None):
     return bytes(P.create_ccsds_packet(body, apid=apid, sequence_count=s1 * 4 + s2))
 
 
-def exercise(ctx, doc, shape_sig, apids=(100,), via_generator=False, sample=False):
+def exercise(ctx, doc, shape_sig, apids=(100,), via_generator=False, sample=False, xml_filter=None):
     info = harness.DocInfo(doc)
     xml = render.render_doc(doc, opts=render.Opts(explicit=None, rng=ctx.rng("opts")))
+    if xml_filter is not None:
+        xml = xml_filter(xml)
     if sum(map(ord, shape_sig)) % 4 == 1 and b'abstract="true"' in xml:
         # the flag as str(True) of a generating script would write it (the loader reads the attribute case-insensitively)
         cap = (b"True", b"TRUE")[len(shape_sig) % 2]
@@ -233,8 +238,10 @@ def run(ctx):
             apid_name = rng.choice(["PKT_APID", "PKT_APID", "APID", "ApplicationId"])
             if apid_name != "PKT_APID":
                 ctx.count("apid-name.other")
-            nested = rng.choice([False, False, False, True, True, "twice", "diamond", "shared", "embeds-root"])
-            if nested in ("twice", "diamond", "shared", "embeds-root"):
+            nested = rng.choice([False, False, False, True, True, "twice", "diamond", "shared", "embeds-root", "nests-own-base"])
+            if nested == "nests-own-base" and not any(p_ >= 0 for p_ in parents):
+                nested = "twice"
+            if nested in ("twice", "diamond", "shared", "embeds-root", "nests-own-base"):
                 ctx.count(f"nested.{nested}")
             empty = tuple(i_ for i_ in range(k) if abstracts[i_] and rng.random() < 0.4) if not nested else ()
             doc = tree_doc(parents, crits, abstracts, rng.random() < 0.6, apid_name, nested=nested, empty=empty)
